@@ -936,9 +936,10 @@ class C08(Property):
         por = [(1, 1, [one(0)]), (1, 1, [one(0), one(1)]), (1, 2, [one(0), one(1)]), (2, 0, [one(0)]), (2, 1, [one(0)]), (2, 1, [bad]),
                (1, 1, [bad, one(1)]), (2, 0, [one(0), one(1)]), (2, 1, [one(0), one(1)]), (2, 1, [bad, one(1)])]
         small = [{"mode": "dfs", "por": True, "n": n, "m": m, "items": items, "abandon": None, "budget": 60000, "wall": 240} for n, m, items in por[:7]]
-        big = []
-        for n, m, items in por[7:]:
-            big += self.por_roots({"mode": "dfs", "por": True, "n": n, "m": m, "items": items, "abandon": None, "budget": 60000, "wall": 300}, want=40)
+        # n=2, m=0, two items: ~25 000 schedule classes, split into subtrees that run on all workers (complete);
+        # n=2, m=1 with two items: one wall-limited case each (the restarts multiply the classes: not complete in the time allowed)
+        big = self.por_roots({"mode": "dfs", "por": True, "n": 2, "m": 0, "items": [one(0), one(1)], "abandon": None, "budget": 60000, "wall": 200}, want=48)
+        big += [{"mode": "dfs", "por": True, "n": n, "m": m, "items": items, "abandon": None, "budget": 60000, "wall": 200} for n, m, items in por[8:]]
         return big + small + plain
 
     # ---- evaluation
